@@ -106,17 +106,40 @@ def run(ctx):
     # behind all four stages on every path - a remembered verdict of an earlier round, a cache, a shortcut do not count
     ctx.rule("C07.R1s", "the success message is printed only behind all four validation stages", floor=2)
     nsucc = 0
-    for name, fn, entry in unit_fns:
+    def says_success(fn, t, c):
+        if not (c and c.startswith("bin::") and c.rsplit("::", 1)[-1] in ("message", "file_message")):
+            return False
+        return any("uccess" in x for a in t["args"] for x in kit.operand_strs(prog, fn, a))
+    def sets_before_call_of(callee, depth=0):
+        """stage sets that may hold when `callee` (a helper of the binary) is entered, over all its call sites"""
+        out = set()
+        for name2, g, entry2 in unit_fns + [("fn " + short(n2), g2, 0) for n2, g2 in sorted(prog.fns.items())
+                                            if n2.startswith("bin::") and g2.bkind == "fn" and g2 is not main and g2.defkind != "Closure"]:
+            ins2, _ = sa.analyse(g, start=entry2)
+            for b2, t2, c2 in g.calls():
+                if c2 != callee or b2 not in ins2:
+                    continue
+                here = set(ins2[b2])
+                if g is not main and g.defkind != "Closure" and depth < 2 and any(s_ != ALL for s_ in here):
+                    up = sets_before_call_of(g.name, depth + 1)
+                    here = {frozenset(a_ | b_) for a_ in here for b_ in up} if up else here
+                out |= here
+        return out
+    helper_units = [("fn " + short(n2), g2, 0) for n2, g2 in sorted(prog.fns.items())
+                    if n2.startswith("bin::") and g2.bkind == "fn" and g2 is not main and g2.defkind != "Closure"
+                    and any(says_success(g2, t, c) for b, t, c in g2.calls())]
+    for name, fn, entry in unit_fns + helper_units:
         ins, transfer = sa.analyse(fn, start=entry)
         for b, t, c in fn.calls():
-            if b not in ins or not (c and c.startswith("bin::") and c.rsplit("::", 1)[-1] in ("message", "file_message")):
-                continue
-            texts = [x for a in t["args"] for x in kit.operand_strs(prog, fn, a)]
-            if not any("uccess" in x for x in texts):
+            if b not in ins or not says_success(fn, t, c):
                 continue
             nsucc += 1
             ctx.instance(1)
-            sets_ = ins[b]
+            sets_ = set(ins[b])
+            if (name, fn, entry) in helper_units and any(s_ != ALL for s_ in sets_):
+                # the sentence sits in a helper: what its callers have passed before handing over counts too
+                up = sets_before_call_of(fn.name)
+                sets_ = {frozenset(a_ | b_) for a_ in sets_ for b_ in up} if up else sets_
             bad = [s_ for s_ in sets_ if s_ != ALL]
             ctx.oblig(not bad, {"unit": name, "success message at": sp_file_line(t.get("sp")), "stage sets on the ways there": [sorted(s_) for s_ in sorted(sets_, key=sorted)]}, "all four stages")
             if bad:
